@@ -119,6 +119,6 @@ def replay(root, repo, pid, path):
     if not ok:
         print(log)
         return 2
-    p = subprocess.run([searcher_bin(root, name), "--replay", json.dumps(w, separators=(",", ":"))], capture_output=True, text=True, timeout=600)
+    p = subprocess.run([searcher_bin(root, name), "--replay", json.dumps(w, separators=(",", ":"), ensure_ascii=False)], capture_output=True, text=True, timeout=600)
     print(p.stdout + p.stderr)
     return 1 if p.returncode != 0 else 0
